@@ -8,14 +8,14 @@ META = {
     "level_text": "Codec.tla transcribes the codec layer's decision logic: selector classification, the compressor's pipeline per "
                   "selector, the store-raw rule, the decompressor's pipeline per selector with the expected-size argument each stage "
                   "receives, codec-internal modes (encoder's choice vs decoder's implemented set), and the limit checks in the order the "
-                  "code applies them. TLC model-checks all 256 selectors x 25 boundary lengths x 12 abstract output lengths for "
+                  "code applies them. TLC model-checks all 256 selectors x 25 boundary lengths x 12 abstract output lengths (126 854 states) for "
                   "never-expand, prefix-iff-shrunk, supported-selectors-succeed, own-output-accepted (outside the named 1000:1 region) and "
                   "decode-is-reverse-of-encode (outside named, TLC-proved-exact dispatch deviations). TLC then enumerates "
-                  "selector x length x content-class cases; the driver runs the real compress / decompress / decompress_secure on each; "
+                  "selector x length x content-class cases; the driver runs the real compress / decompress / decompress_secure on each (child processes, per-case watchdog); "
                   "TLC validates every recorded round trip against the model (content equality as token equality).",
     "level_note": "Byte-level correctness of zlib/bzip2/LZMA/PKWare/sparse is observed (token equality on the enumerated classes), not "
                   "modelled: codecs are uninterpreted stages in Codec.tla. ADPCM (lossy): length, lane-swap equivariance and "
-                  "silent-lane placement (peak amplitude thresholds 64 vs half the input peak) only. Lengths up to 2^21 in thorough, 65537 in quick. "
+                  "silent-lane placement (peak amplitude thresholds 64 vs half the input peak) only. Lengths up to 2^21 in thorough (every codec at 2^20, 2^20+1, 2^21), up to 65537 in quick plus LZMA and bzip2 at 2^20+1. "
                   "Assumption A1: a codec stage emits at least one byte for non-empty input.",
     "technique": "TLA+ model of the codec dispatch/limit logic checked by TLC; TLC-enumerated cases replayed on the real codecs; trace validation by TLC",
     "design_ref": "DESIGN.md section 5, C03",
